@@ -176,7 +176,7 @@ def exact_before_fuzzy(ctx):
     cfg = ctx.cfg(u)
     op, obj = u.params[1], u.params[2]
     # roles: obj_type = type(obj); type_map = self.get_type_map(op); ret = type_map[obj_type]
-    tv = mv = None
+    tv, mv = 'type(%s)' % obj, None
     for n in u.own_nodes():
         if isinstance(n, ast.Assign):
             b = match(n, '$t = type(%s)' % obj)
